@@ -309,6 +309,8 @@ def chk_notation(ctx, p):
     ok &= eval(repr(P), {"Perm": Perm}) == P and type(eval(repr(P), {"Perm": Perm})) is Perm
     ok &= Perm.one_based([v + 1 for v in P]) == P and Perm.one(tuple(v + 1 for v in P)) == P and Perm.proper([v + 1 for v in P]) == P
     ok &= Perm.from_iterable_validated(list(P)) == P and Perm.to_standard(list(P)) == P and Perm.standardize(tuple(P)) == P
+    ok &= Perm.from_iterable(iter(list(P))) == P and Perm.scientific([v + 1 for v in P]) == P and Perm.ind2perm(P.perm2ind()) == P
+    ok &= Perm.identity(n) == Perm.monotone_increasing(n) == Perm(range(n)) and Perm.monotone_decreasing(n) == Perm(range(n - 1, -1, -1))
     if 1 <= n <= 9:
         ok &= Perm.from_integer(int("".join(str(v + 1) for v in P))) == P
         if P[0] != 0:
